@@ -229,8 +229,9 @@ def payload_problems(vd, j, path="v"):
             bad("kind", "Extension", j.get("v"))
             return out
         pay = j["value"]["v"]
-        if k == "int" and pay != {"log_width": vd[1], "value": vd[2]}:
-            bad("ConstInt payload", {"log_width": vd[1], "value": vd[2]}, pay)
+        if k == "int" and pay != {"log_width": vd[1], "value": vd[2] % 2 ** (2 ** vd[1])}:
+            # (the stored value is unsigned: (value mod 2^N), N = 2^log_width)
+            bad("ConstInt payload", {"log_width": vd[1], "value": vd[2] % 2 ** (2 ** vd[1])}, pay)
         if k == "float" and (not isinstance(pay, dict) or json.dumps(pay.get("value")) != json.dumps(float(vd[1]))):
             bad("ConstF64 payload", vd[1], pay)
         if k == "string" and pay != {"value": vd[1]}:
